@@ -63,6 +63,14 @@ PROPS = {
              "checked against each other) and NslSem computes the value each accepted program must return, which depends on the declaration each use binds to. "
              "Every program is compiled at both optimisation levels and the accepted ones are executed. Exhaustive to the stated size.",
         note=_TRUST + "Rejection = Compile returns None or raises. Parameter/global clashes are not enumerated (not settled by the statement)."),
+    "C14": dict(
+        claimed=True, level="model_checking",
+        technique="TLA+ specification IRWellFormed checked by TLC on the projection of the real compiler's IR: static invariants plus exhaustive exploration of all control-flow paths of every function (nondeterministic branch outcomes) for definition-before-use",
+        text="Every module the real compiler produces for the optimiser small-scope family and for seeded programs, at both optimisation levels, is projected "
+             "(public properties only) and handed to TLC; IRWellFormed states uniqueness of references, existence of operands, branch targets and call targets as "
+             "invariants and explores every path through each function with the set of defined references as state, so a dangling operand on a path that no "
+             "input takes is still found. Exhaustive over the paths of each checked function; the set of programs is bounded.",
+        note=_TRUST + "Trusted: the projection harness/irproj.py (reads public properties only; a VIEW merges paths that agree on the still-usable references, its completeness is an invariant)."),
     "C15": dict(
         claimed=True, level="model_checking",
         technique="TLA+ specification VMHistory (host operations composed with the NslSem step relation) model-checked by TLC over all histories to a depth plus simulation of longer ones (action properties Isolation, Persistence, FreshLocals); every TLC-generated history replayed on real VirtualMachine objects with state compared after each operation",
